@@ -290,6 +290,14 @@ impl Vm {
     let arg_count = self.read_short() as usize;
     let args = self.fiber.stack_slice(arg_count);
 
+    // every segment is the result of a str() call and a user defined one can return anything
+    if !args.iter().all(|arg| arg.is_obj_kind(ObjectKind::String)) {
+      return self.runtime_error_from_str(
+        self.builtin.errors.type_,
+        "Expected str() to return a string in string interpolation.",
+      );
+    }
+
     let mut length: usize = 0;
     for arg in args {
       length += arg.to_obj().to_str().len();
